@@ -14,6 +14,7 @@ import (
 	"sort"
 	"strings"
 	"sync/atomic"
+	"time"
 )
 
 // ---------------------------------------------------------------------------
@@ -101,6 +102,8 @@ type Sched struct {
 	endCh    chan struct{}
 	steps    int
 	horizon  int
+	loops    int
+	loopHorizon int
 	capHit   string
 	fails    []Failure
 	obs      []string
@@ -159,6 +162,7 @@ func (s *Sched) nextChoice(n int, preemptive, env, free bool, label string) int 
 			idx = 0
 		}
 	}
+	s.loops = 0
 	s.choices = append(s.choices, idx)
 	s.points = append(s.points, Point{N: n, Chosen: idx, Preemptive: preemptive, Env: env, Free: free, Label: label})
 	return idx
@@ -211,6 +215,7 @@ func (s *Sched) Yield(o *Op) {
 	t := s.cur
 	t.pend = o
 	s.steps++
+	s.loops = 0
 	if s.horizon > 0 && s.steps > s.horizon {
 		s.capHit = "horizon"
 		s.finish()
@@ -218,6 +223,25 @@ func (s *Sched) Yield(o *Op) {
 		panic(abortT{})
 	}
 	s.dispatch(t)
+}
+
+// Loop is called at the head of every `for` iteration of rewritten code. It is not a
+// scheduling point; it only counts steps so that a loop that makes no visible progress
+// runs into the execution's horizon (reported as a cap / livelock, never silently).
+func Loop() {
+	s := Cur()
+	if s == nil {
+		return
+	}
+	s.loops++
+	if s.loopHorizon > 0 && s.loops > s.loopHorizon && !s.aborting {
+		s.capHit = "loop-horizon"
+		s.fails = append(s.fails, Failure{Sig: "livelock", Msg: fmt.Sprintf("more than %d loop iterations without a visible operation", s.loopHorizon)})
+		t := s.cur
+		s.finish()
+		<-t.wake
+		panic(abortT{})
+	}
 }
 
 var always = &Op{Kind: "point"}
@@ -483,6 +507,7 @@ type Result struct {
 	Threads  int
 	Trace    []string
 	ReplayErr string
+	Hung     bool
 }
 
 type RunOpts struct {
@@ -491,6 +516,8 @@ type RunOpts struct {
 	AllowBlockedDaemons bool
 	Trace               bool
 	StartNS             int64
+	WatchdogS           int
+	LoopHorizon         int // max `for` iterations between two visible operations (0 = 5e6)
 }
 
 // Run executes body once under the scheduler, replaying prefix and taking choice
@@ -501,6 +528,10 @@ func Run(prefix []int, o RunOpts, body func(s *Sched)) *Result {
 		chans: map[uintptr]*chanModel{}, shadow: map[accKey]*shadowCell{}}
 	if s.horizon == 0 {
 		s.horizon = 200000
+	}
+	s.loopHorizon = o.LoopHorizon
+	if s.loopHorizon == 0 {
+		s.loopHorizon = 5_000_000
 	}
 	if !active.CompareAndSwap(nil, s) {
 		panic("vrt: nested Run")
@@ -513,7 +544,18 @@ func Run(prefix []int, o RunOpts, body func(s *Sched)) *Result {
 	go s.threadMain(main, func() { body(s) })
 	main.pend = nil
 	main.wake <- struct{}{}
-	<-s.endCh
+	wd := o.WatchdogS
+	if wd <= 0 {
+		wd = 30
+	}
+	select {
+	case <-s.endCh:
+	case <-time.After(time.Duration(wd) * time.Second):
+		// a thread is spinning without reaching a scheduling point: abandon this execution
+		// (the spinner cannot be stopped; it no longer sees an active scheduler)
+		return &Result{Points: s.points, Choices: s.choices, Fails: []Failure{{Sig: "hang", Msg: fmt.Sprintf("execution did not reach a scheduling point or finish within %d s", wd)}},
+			Obs: s.obs, Hung: true, Steps: s.steps, Threads: len(s.threads)}
+	}
 	// unwind everything still blocked
 	for i := 0; i < len(s.threads); i++ { // threads may not grow while aborting
 		t := s.threads[i]
@@ -550,6 +592,7 @@ type Stats struct {
 	Exhaustive      bool           `json:"exhaustive"`
 	MaxThreads      int            `json:"max_threads"`
 	SampleSchedules [][]int        `json:"sample_schedules"`
+	Hung            bool           `json:"hung"`
 }
 
 type Explorer struct {
@@ -558,6 +601,7 @@ type Explorer struct {
 	st    *Stats
 	seen  map[string]bool
 	capped bool
+	stop   bool
 	subtree int
 }
 
@@ -575,6 +619,9 @@ func Explore(o ExploreOpts, body func(s *Sched)) *Stats {
 }
 
 func (e *Explorer) explore(prefix []int, depth int) {
+	if e.stop {
+		return
+	}
 	if e.o.MaxExec > 0 && e.st.Executions >= e.o.MaxExec {
 		if !e.capped {
 			e.capped = true
@@ -596,6 +643,16 @@ func (e *Explorer) explore(prefix []int, depth int) {
 	}
 	if x.Threads > e.st.MaxThreads {
 		e.st.MaxThreads = x.Threads
+	}
+	if x.Hung {
+		e.stop = true
+		e.capped = true
+		e.st.Hung = true
+		f := x.Fails[0]
+		f.Choices = append([]int{}, x.Choices...)
+		e.st.Failures = append(e.st.Failures, f)
+		e.st.CapsHit = append(e.st.CapsHit, "hang")
+		return
 	}
 	if x.ReplayErr != "" {
 		e.st.Failures = append(e.st.Failures, Failure{Sig: "engine:replay-divergence", Msg: x.ReplayErr, Choices: x.Choices})
